@@ -108,9 +108,22 @@ def one(m):
         shutil.rmtree(d, ignore_errors=True)
 
 
+def seeded_for(prop):
+    base = os.path.join(HERE, "seeded")
+    out = []
+    if os.path.isdir(base):
+        for d in sorted(os.listdir(base)):
+            mp = os.path.join(base, d, "meta.json")
+            if d.startswith(prop + "-") and os.path.exists(mp):
+                meta = json.load(open(mp))
+                out.append({"patch": os.path.join("..", "seeded", d, "patch.diff"), "property": prop, "expect": "R",
+                            "what": "independently seeded change (sub-agent): needs " + meta.get("needs_to_manifest", ""), "tests_pass": True})
+    return out
+
+
 def cmd_run(a):
     t0 = time.time()
-    ms = [m for m in load_index()["mutants"] if m["property"] == a.prop]
+    ms = [m for m in load_index()["mutants"] if m["property"] == a.prop] + seeded_for(a.prop)
     with ThreadPoolExecutor(max_workers=int(os.environ.get("VERIF_JOBS", "6"))) as ex:
         results = list(ex.map(one, ms))
     killed = sum(1 for r in results if r["result"] == "killed")
